@@ -94,6 +94,12 @@ CHECKS = {
    text="Valid printed values and real/synthetic TZif files are mutated (truncation, digit overflow, sign/separator swaps, long runs, invalid UTF-8; header counts, extreme/unsorted transitions, offsets, designation indexes, hostile footers) and fed to every parser; no panic, Ok values in range and re-printable, accepted zones answer a battery of lookups, peak heap while parsing TZif bounded by a multiple of the input (counting allocator), coarse time-scaling test.",
    note="A process abort (stack overflow, memory error) is reported through a crash guard that names the running case. 'Work proportional to input' is decided by heap accounting plus a coarse timing test, not a complexity proof. The concatenated-tzdata reader is exercised through C18.",
    design="DESIGN.md section 3 C17"),
+ "C18": dict(
+   technique="differential proptest and exhaustive per-zone sweeps: one TZif byte string loaded through every back-end (zoneinfo directory, bundled table, generated Android-style concatenated file, raw bytes, static get!/include! macros) must give byte-identical answer digests; the same digests are computed by a second harness binary built without tz-fat and compared across builds; slim vs fat zic output compared from the first common transition; generated case variants of names; POSIX print/parse round trip on generated rules",
+   category="exploration",
+   text="Every bundled and installed zone plus the synthetic corpus, at the C03/C04/C14 probe instants (each transition +-1s/+-0.5ns, civil gap/fold edges, far past/future): offset info, civil resolution, previous/next transitions, printing. Name lookup with random case changes returns the canonical spelling. Generated POSIX rules (J/n/M dates, negative and >24h times, quoted abbreviations) print to a string that parses to a zone with identical answers.",
+   note="The tz-fat-off configuration is a second build of the same harness (target-nofat) whose digest is compared line by line. tz::include! is exercised on the synthetic corpus at harness build time (build.rs); the jiff-static copy of shared code is therefore compared with the original on the same bytes.",
+   design="DESIGN.md section 3 C18"),
  "C19": dict(
    technique="stateful (model-based) proptest over histories of lookups, resets, on-disk file changes and TTL changes against a private zoneinfo tree whose file versions identify themselves; plus multi-threaded stress with a version-window oracle and a no-progress watchdog",
    category="exploration",
